@@ -2764,6 +2764,11 @@ def _transition_to_absent(
 ) -> None:
     """Remove any type of entry."""
     if current_stat is None:
+        # Nothing to remove on disk, but the path must leave the index too
+        try:
+            del index[path]
+        except KeyError:
+            pass
         return
 
     if stat.S_ISDIR(current_stat.st_mode):
